@@ -1,1 +1,426 @@
-//! generators
+//! Generators and reference model for *legal* writer programs (C01, C02, C09-C14, C17 reuse it).
+use crate::refzip::content::{self, Content};
+use crate::refzip::crypto;
+use crate::refzip::Extra;
+use proptest::prelude::*;
+use serde::{Deserialize, Serialize};
+use std::io::{Seek, Write};
+use zip::unstable::write::FileOptionsExt;
+use zip::write::FileOptions;
+use zip::{CompressionMethod, DateTime, ZipWriter};
+
+#[derive(Clone, Copy, Debug, Serialize, Deserialize, Hash, PartialEq, Eq)]
+pub enum Method {
+    Stored,
+    Deflated,
+    Bzip2,
+    Zstd,
+}
+impl Method {
+    pub fn id(self) -> u16 {
+        match self {
+            Method::Stored => 0,
+            Method::Deflated => 8,
+            Method::Bzip2 => 12,
+            Method::Zstd => 93,
+        }
+    }
+    pub fn zip(self) -> CompressionMethod {
+        match self {
+            Method::Stored => CompressionMethod::Stored,
+            Method::Deflated => CompressionMethod::Deflated,
+            Method::Bzip2 => CompressionMethod::Bzip2,
+            Method::Zstd => CompressionMethod::Zstd,
+        }
+    }
+    pub fn from_zip(m: CompressionMethod) -> Option<Method> {
+        match m {
+            CompressionMethod::Stored => Some(Method::Stored),
+            CompressionMethod::Deflated => Some(Method::Deflated),
+            CompressionMethod::Bzip2 => Some(Method::Bzip2),
+            CompressionMethod::Zstd => Some(Method::Zstd),
+            _ => None,
+        }
+    }
+}
+
+#[derive(Clone, Debug, Serialize, Deserialize, Hash, PartialEq, Eq)]
+pub struct Opts {
+    pub method: Method,
+    pub level: Option<i32>,
+    /// (year, month, day, hour, minute, second) inside the documented constructor ranges
+    pub ts: (u16, u8, u8, u8, u8, u8),
+    pub perm: Option<u32>,
+    pub large: bool,
+    #[serde(default)]
+    pub password: Option<String>,
+}
+impl Opts {
+    pub fn plain(method: Method) -> Opts {
+        Opts { method, level: None, ts: (2020, 6, 15, 12, 30, 20), perm: None, large: false, password: None }
+    }
+    pub fn datetime(&self) -> DateTime {
+        let (y, mo, d, h, mi, s) = self.ts;
+        DateTime::from_date_and_time(y, mo, d, h, mi, s).expect("generator produces valid timestamps")
+    }
+    pub fn dos(&self) -> (u16, u16) {
+        let (y, mo, d, h, mi, s) = self.ts;
+        ((d as u16) | ((mo as u16) << 5) | ((y - 1980) << 9), ((s as u16) >> 1) | ((mi as u16) << 5) | ((h as u16) << 11))
+    }
+    pub fn to_zip(&self) -> FileOptions {
+        let mut o = FileOptions::default()
+            .compression_method(self.method.zip())
+            .compression_level(self.level)
+            .last_modified_time(self.datetime())
+            .large_file(self.large);
+        if let Some(p) = self.perm {
+            o = o.unix_permissions(p);
+        }
+        if let Some(pw) = &self.password {
+            o = o.with_deprecated_encryption(pw.as_bytes());
+        }
+        o
+    }
+}
+
+#[derive(Clone, Debug, Serialize, Deserialize, Hash, PartialEq, Eq)]
+pub enum Op {
+    File { name: String, opts: Opts, chunks: Vec<Content> },
+    Dir { name: String, opts: Opts },
+    Symlink { name: String, target: String, opts: Opts },
+    /// start_file_with_extra_data; `central`: None = same records in both headers,
+    /// Some(v) = `local` only in the local header and `v` only in the central header
+    ExtraFile { name: String, opts: Opts, local: Vec<Extra>, central: Option<Vec<Extra>>, chunks: Vec<Content> },
+    Aligned { name: String, opts: Opts, align: u16, chunks: Vec<Content> },
+    Comment(#[serde(with = "crate::util::hexbytes")] Vec<u8>),
+}
+
+#[derive(Clone, Debug, Serialize, Deserialize, Hash, PartialEq, Eq)]
+pub struct Program {
+    pub ops: Vec<Op>,
+}
+
+#[derive(Clone, Debug, PartialEq, Eq)]
+pub struct ModelEntry {
+    pub name: String,
+    pub content: Vec<u8>,
+    pub method: Method,
+    pub dos: (u16, u16),
+    pub mode: u32,
+    pub crc: u32,
+    pub password: Option<String>,
+    pub large: bool,
+    pub local_extra: Vec<u8>,
+    pub central_extra: Vec<u8>,
+    pub align: Option<u16>,
+    pub is_dir: bool,
+}
+
+pub fn extras_bytes(list: &[Extra]) -> Vec<u8> {
+    let mut v = Vec::new();
+    for e in list {
+        v.extend_from_slice(&e.id.to_le_bytes());
+        v.extend_from_slice(&(e.data.len() as u16).to_le_bytes());
+        v.extend_from_slice(&e.data);
+    }
+    v
+}
+
+fn concat(chunks: &[Content]) -> Vec<u8> {
+    let mut v = Vec::new();
+    for c in chunks {
+        v.extend_from_slice(&c.expand());
+    }
+    v
+}
+
+/// The reference model: what the archive must contain after the program.
+pub fn model(p: &Program) -> (Vec<ModelEntry>, Vec<u8>) {
+    let mut out = Vec::new();
+    let mut comment = Vec::new();
+    for op in &p.ops {
+        match op {
+            Op::File { name, opts, chunks } | Op::ExtraFile { name, opts, chunks, .. } | Op::Aligned { name, opts, chunks, .. } => {
+                let content = concat(chunks);
+                let (local_extra, central_extra, align) = match op {
+                    Op::ExtraFile { local, central, .. } => {
+                        let l = extras_bytes(local);
+                        let c = match central {
+                            None => l.clone(),
+                            Some(c) => extras_bytes(c),
+                        };
+                        (l, c, None)
+                    }
+                    Op::Aligned { align, .. } => (vec![], vec![], Some(*align)),
+                    _ => (vec![], vec![], None),
+                };
+                out.push(ModelEntry {
+                    name: name.clone(),
+                    crc: crypto::crc32(&content),
+                    content,
+                    method: opts.method,
+                    dos: opts.dos(),
+                    mode: 0o100000 | opts.perm.map(|p| p & 0o777).unwrap_or(0o644),
+                    password: opts.password.clone(),
+                    large: opts.large,
+                    local_extra,
+                    central_extra,
+                    align,
+                    is_dir: false,
+                });
+            }
+            Op::Dir { name, opts } => {
+                let n = if name.ends_with('/') || name.ends_with('\\') { name.clone() } else { format!("{name}/") };
+                out.push(ModelEntry {
+                    name: n,
+                    content: vec![],
+                    crc: 0,
+                    method: Method::Stored,
+                    dos: opts.dos(),
+                    mode: 0o40000 | opts.perm.map(|p| p & 0o777).unwrap_or(0o755),
+                    password: opts.password.clone(),
+                    large: opts.large,
+                    local_extra: vec![],
+                    central_extra: vec![],
+                    align: None,
+                    is_dir: true,
+                });
+            }
+            Op::Symlink { name, target, opts } => {
+                let content = target.as_bytes().to_vec();
+                out.push(ModelEntry {
+                    name: name.clone(),
+                    crc: crypto::crc32(&content),
+                    content,
+                    method: Method::Stored,
+                    dos: opts.dos(),
+                    mode: 0o120000 | opts.perm.map(|p| p & 0o777).unwrap_or(0o777),
+                    password: opts.password.clone(),
+                    large: opts.large,
+                    local_extra: vec![],
+                    central_extra: vec![],
+                    align: None,
+                    is_dir: false,
+                });
+            }
+            Op::Comment(c) => comment = c.clone(),
+        }
+    }
+    (out, comment)
+}
+
+/// Apply one op to a writer. Err(description) on the first failing call.
+pub fn apply<W: Write + Seek>(w: &mut ZipWriter<W>, op: &Op) -> Result<(), String> {
+    match op {
+        Op::File { name, opts, chunks } => {
+            w.start_file(name.clone(), opts.to_zip()).map_err(|e| format!("start_file({name:?}): {e}"))?;
+            for c in chunks {
+                w.write_all(&c.expand()).map_err(|e| format!("write to {name:?}: {e}"))?;
+            }
+        }
+        Op::Dir { name, opts } => w.add_directory(name.clone(), opts.to_zip()).map_err(|e| format!("add_directory({name:?}): {e}"))?,
+        Op::Symlink { name, target, opts } => w.add_symlink(name.clone(), target.clone(), opts.to_zip()).map_err(|e| format!("add_symlink({name:?}): {e}"))?,
+        Op::ExtraFile { name, opts, local, central, chunks } => {
+            w.start_file_with_extra_data(name.clone(), opts.to_zip()).map_err(|e| format!("start_file_with_extra_data({name:?}): {e}"))?;
+            w.write_all(&extras_bytes(local)).map_err(|e| format!("write local extra: {e}"))?;
+            if let Some(c) = central {
+                w.end_local_start_central_extra_data().map_err(|e| format!("end_local_start_central_extra_data: {e}"))?;
+                w.write_all(&extras_bytes(c)).map_err(|e| format!("write central extra: {e}"))?;
+            }
+            w.end_extra_data().map_err(|e| format!("end_extra_data: {e}"))?;
+            for c in chunks {
+                w.write_all(&c.expand()).map_err(|e| format!("write to {name:?}: {e}"))?;
+            }
+        }
+        Op::Aligned { name, opts, align, chunks } => {
+            w.start_file_aligned(name.clone(), opts.to_zip(), *align).map_err(|e| format!("start_file_aligned({name:?},{align}): {e}"))?;
+            for c in chunks {
+                w.write_all(&c.expand()).map_err(|e| format!("write to {name:?}: {e}"))?;
+            }
+        }
+        Op::Comment(c) => w.set_raw_comment(c.clone()),
+    }
+    Ok(())
+}
+
+/// Run a whole program into an in-memory sink; completes by finish() or by drop.
+pub fn run_program(p: &Program, by_drop: bool) -> Result<Vec<u8>, String> {
+    let mut sink = std::io::Cursor::new(Vec::new());
+    if by_drop {
+        let mut w = ZipWriter::new(&mut sink);
+        for op in &p.ops {
+            if let Err(e) = apply(&mut w, op) {
+                std::mem::forget(w);
+                return Err(e);
+            }
+        }
+        drop(w);
+    } else {
+        let mut w = std::mem::ManuallyDrop::new(ZipWriter::new(&mut sink));
+        for op in &p.ops {
+            apply(&mut w, op)?;
+        }
+        w.finish().map_err(|e| format!("finish: {e}"))?;
+        // finished writers are closed: dropping is a no-op, but keep ManuallyDrop anyway
+    }
+    Ok(sink.into_inner())
+}
+
+// ------------------------------------------------------------------------------------ strategies
+pub fn timestamp() -> BoxedStrategy<(u16, u8, u8, u8, u8, u8)> {
+    prop_oneof![
+        6 => (1980u16..=2107, 1u8..=12, 1u8..=31, 0u8..=23, 0u8..=59, 0u8..=60),
+        1 => Just((1980, 1, 1, 0, 0, 0)),
+        1 => Just((2107, 12, 31, 23, 59, 60)),
+        1 => Just((2107, 12, 31, 23, 59, 59)),
+    ]
+    .boxed()
+}
+
+pub fn method_level() -> BoxedStrategy<(Method, Option<i32>)> {
+    prop_oneof![
+        3 => Just((Method::Stored, None)),
+        2 => Just((Method::Deflated, None)),
+        2 => (0i32..=9).prop_map(|l| (Method::Deflated, Some(l))),
+        1 => Just((Method::Bzip2, None)),
+        1 => (1i32..=9).prop_map(|l| (Method::Bzip2, Some(l))),
+        1 => Just((Method::Zstd, None)),
+        1 => (-7i32..=22).prop_map(|l| (Method::Zstd, Some(l))),
+    ]
+    .boxed()
+}
+
+pub fn opts(encrypt: bool) -> BoxedStrategy<Opts> {
+    let pw = if encrypt {
+        prop_oneof![3 => Just(None), 1 => password().prop_map(Some)].boxed()
+    } else {
+        Just(None).boxed()
+    };
+    (method_level(), timestamp(), prop_oneof![2 => Just(None), 3 => (0u32..512).prop_map(Some), 1 => any::<u32>().prop_map(Some)], prop_oneof![4 => Just(false), 1 => Just(true)], pw)
+        .prop_map(|((method, level), ts, perm, large, password)| Opts { method, level, ts, perm, large, password })
+        .boxed()
+}
+
+pub fn password() -> BoxedStrategy<String> {
+    prop_oneof![
+        1 => Just(String::new()),
+        3 => "[a-zA-Z0-9 !#$%]{1,12}",
+        1 => "\\PC{1,8}",
+        1 => Just("\0\u{1}\u{7f}\u{80}\u{ff}".to_string()),
+        1 => "[a-z]{200,300}",
+    ]
+    .boxed()
+}
+
+/// Entry names: ASCII, multi-byte UTF-8, NUL / backslash / leading slash, empty, boundary lengths.
+pub fn name() -> BoxedStrategy<String> {
+    prop_oneof![
+        8 => "[a-z0-9_.-]{1,12}(/[a-z0-9_.-]{1,8}){0,3}",
+        3 => "[a-zé漢字ß😀 ]{1,10}(/[a-zéü漢😀]{1,6}){0,2}",
+        1 => "[a-z/\\\\\0.]{0,12}",
+        1 => Just(String::new()),
+        1 => "/[a-z]{1,8}",
+        1 => "[a-z]{1,4}\\\\[a-z]{1,4}",
+        1 => prop_oneof![Just(255usize), Just(256), Just(1), Just(2)].prop_map(|n| "n".repeat(n)),
+        1 => "\\PC{0,20}",
+    ]
+    .boxed()
+}
+/// rare: names at the 16-bit boundary
+pub fn long_name() -> BoxedStrategy<String> {
+    prop_oneof![Just(65534usize), Just(65535), Just(40000)]
+        .prop_flat_map(|n| prop_oneof![Just("x".repeat(n)), Just("é".repeat(n / 2) + if n % 2 == 1 { "y" } else { "" })])
+        .boxed()
+}
+
+pub fn sanitize_comment(mut c: Vec<u8>) -> Vec<u8> {
+    // format-inherent ambiguity: a comment must not embed an end-record signature
+    for i in 0..c.len().saturating_sub(1) {
+        if c[i] == b'P' && c[i + 1] == b'K' {
+            c[i + 1] = b'k';
+        }
+    }
+    c
+}
+
+pub fn comment() -> BoxedStrategy<Vec<u8>> {
+    prop_oneof![
+        3 => Just(vec![]),
+        3 => proptest::collection::vec(any::<u8>(), 1..40),
+        1 => "\\PC{1,30}".prop_map(|s| s.into_bytes()),
+        1 => prop_oneof![Just(65534usize), Just(65535), Just(1), Just(30000)].prop_flat_map(|n| any::<u64>().prop_map(move |s| Content::Text { seed: s, len: n as u32 }.expand())),
+    ]
+    .prop_map(sanitize_comment)
+    .boxed()
+}
+
+pub fn chunks(max: u32) -> BoxedStrategy<Vec<Content>> {
+    prop_oneof![
+        1 => Just(vec![]),
+        5 => content::content(max).prop_map(|c| vec![c]),
+        2 => proptest::collection::vec(content::content(max / 4 + 1), 2..5),
+    ]
+    .boxed()
+}
+
+/// unreserved extra-field record (id outside 0..=31 and outside the APPNOTE-registered ids)
+pub fn good_extra(max_len: usize) -> BoxedStrategy<Extra> {
+    (prop_oneof![Just(0xbeefu16), Just(0xdeadu16), Just(0x0020u16), Just(0xfffe), 0x8000u16..0x9000], proptest::collection::vec(any::<u8>(), 0..=max_len))
+        .prop_map(|(id, data)| Extra { id, data })
+        .boxed()
+}
+
+pub fn basic_op(max: u32, encrypt: bool) -> BoxedStrategy<Op> {
+    prop_oneof![
+        12 => (name(), opts(encrypt), chunks(max)).prop_map(|(name, opts, chunks)| Op::File { name, opts, chunks }),
+        2 => (name(), opts(false)).prop_map(|(name, opts)| Op::Dir { name, opts }),
+        2 => (name(), "[a-z/.\\\\é]{0,20}", opts(false)).prop_map(|(name, target, opts)| Op::Symlink { name, target, opts }),
+        2 => comment().prop_map(Op::Comment),
+    ]
+    .boxed()
+}
+
+pub fn extra_op(max: u32) -> BoxedStrategy<Op> {
+    prop_oneof![
+        3 => (name(), opts(false), proptest::collection::vec(good_extra(40), 0..3), prop_oneof![Just(None), proptest::collection::vec(good_extra(40), 0..3).prop_map(Some)], chunks(max))
+            .prop_map(|(name, opts, local, central, chunks)| Op::ExtraFile { name, opts, local, central, chunks }),
+        3 => (name(), opts(false), prop_oneof![Just(0u16), Just(1), Just(2), Just(4), Just(64), Just(512), Just(4096), Just(32768), 0u16..300, any::<u16>()], chunks(max))
+            .prop_map(|(name, opts, align, chunks)| Op::Aligned { name, opts, align, chunks }),
+    ]
+    .boxed()
+}
+
+/// A legal program with duplicates injected (a later name repeats an earlier one).
+pub fn program(max_entries: usize, max_content: u32, with_extra: bool, encrypt: bool) -> BoxedStrategy<Program> {
+    let op = if with_extra {
+        prop_oneof![4 => basic_op(max_content, encrypt), 1 => extra_op(max_content)].boxed()
+    } else {
+        basic_op(max_content, encrypt)
+    };
+    (proptest::collection::vec(op, 0..=max_entries), proptest::collection::vec((any::<u16>(), any::<u16>()), 0..3))
+        .prop_map(|(mut ops, dups)| {
+            // duplicate names: copy the name of entry a onto entry b
+            let idx: Vec<usize> = ops.iter().enumerate().filter(|(_, o)| matches!(o, Op::File { .. })).map(|(i, _)| i).collect();
+            if idx.len() >= 2 {
+                for (a, b) in dups {
+                    let ia = idx[(a as usize * idx.len()) >> 16];
+                    let ib = idx[(b as usize * idx.len()) >> 16];
+                    if ia != ib {
+                        let n = match &ops[ia] {
+                            Op::File { name, .. } => name.clone(),
+                            _ => unreachable!(),
+                        };
+                        if let Op::File { name, .. } = &mut ops[ib] {
+                            *name = n;
+                        }
+                    }
+                }
+            }
+            Program { ops }
+        })
+        .boxed()
+}
+
+pub fn entry_count(p: &Program) -> usize {
+    p.ops.iter().filter(|o| !matches!(o, Op::Comment(_))).count()
+}
